@@ -28,7 +28,7 @@ ASSUMPTIONS = ['a route whose methods were all removed still matches its path (4
 
 METHODS = ['GET', 'HEAD', 'POST', 'PUT', 'ANY']
 # extension verbs, some of whose names contain one another (PATCH/PROPPATCH, LOCK/UNLOCK, GET/GETLOCK)
-EXT = ['DELETE', 'PATCH', 'PROPPATCH', 'LOCK', 'UNLOCK', 'OPTIONS', 'GETLOCK', 'UPDATEREDIRECTREF', 'X-REINDEX-EVERYTHING-' + 'Z' * 44]     # incl. long method names
+EXT = ['DELETE', 'PATCH', 'PROPPATCH', 'LOCK', 'UNLOCK', 'OPTIONS', 'GETLOCK', 'UPDATEREDIRECTREF', 'TRACE', 'CONNECT', 'TRACK', 'trace', 'X-REINDEX-EVERYTHING-' + 'Z' * 44]     # incl. long method names
 # the same route spelled with another wildcard name: one route, one method table
 CANON = {'/w/<y>': '/w/<x>', '/w/<y>/tail': '/w/<x>/tail'}
 VERBS = ['GET', 'HEAD', 'POST', 'PUT', 'DELETE', 'get', 'Head', 'ANY', 'BREW']
